@@ -15,6 +15,7 @@
      C02_blocks_inc, C02_roundtrip_inc_multi, _nojunk        block theorem, .inc (filter state)
      C02_blocks_dtd(_bom), C02_roundtrip_dtd_multi(_bom)     block theorem, .dtd
      C02_blocks_properties_junk, C02_junk_properties         junk regions in .properties
+     C02_blocks_po, C02_roundtrip_po_multi                   block theorem, .po (with values)
    Stated, not proved (see the end of the file): what is still missing of
    C02_roundtrip_<fmt> of DESIGN.md section 4; those clauses are covered by the
    implementation-only oracle of harness/props/c02.py (printed files, all seven formats). *)
@@ -24,7 +25,7 @@ From CL Require Import Base.Sx Base.Res Base.Str Regex.Rx Model.Entry Model.Pars
   Proofs.C02License Proofs.UnescapeProofs Proofs.C02Po Proofs.C02Props Proofs.C02Roundtrip
   Proofs.C02Blocks.
 From CL Require Proofs.C02BlocksIni Proofs.C02BlocksInc Proofs.C02BlocksJunkRx Proofs.C02BlocksJunk
-  Proofs.C02BlocksDtd.
+  Proofs.C02BlocksDtd Proofs.C02BlocksPoRx Proofs.C02BlocksPo Proofs.C02BlocksPoVal.
 Import ListNotations.
 
 (* ---- (a) the License rule -------------------------------------------------------------
@@ -442,10 +443,67 @@ Proof.
   split; [exact H3|]. reflexivity.
 Qed.
 
+(* ---- the block theorem for .po ---------------------------------------------------------------
+   Proofs/C02BlocksPoRx.v, C02BlocksPo.v, C02BlocksPoVal.v.  A [pblock] is a run of whitespace, a
+   standalone comment (lines #...), or a message: optional comment lines, optional whitespace
+   with at most ONE newline, then [msgctxt items ws] msgid items ws msgstr items, where items is
+   a non-empty list of (leading whitespace, tokens) printed as  ws* quote tokens quote  with the
+   token grammar of C02_unescape_po.  [padjacent_ok]: a standalone comment block is followed by
+   the end of the file or by a whitespace block with at least TWO newlines (the premise that
+   excludes the listed finding po-comment-attached-across-one-blank-line: C02_po_one_blank_line
+   shows it is needed); a message with comment lines below offset 2 does not have "License"
+   in them.  [pentries_of]: entity span from the first keyword to the closing quote of the last
+   msgstr item, key span = msgctxt/msgid lists, value span = msgstr list, pre-comment, inner
+   whitespace. *)
+Theorem C02_blocks_po : forall bs : list C02BlocksPo.pblock,
+  Forall C02BlocksPo.legal_pblock bs -> C02BlocksPo.padjacent_ok bs ->
+  walk_po (C02BlocksPo.pfile_text bs) = Ok (C02BlocksPo.pentries_of bs).
+Proof. exact C02BlocksPo.blocks_po. Qed.
+
+(* every message is recovered with its VALUES: [po_value_at] (Model/Unescape.v: createEntity's
+   string lists evaluated by eval_stringlist, i.e. PoEntity.key = (msgid, msgctxt) and the
+   msgstr) gives the concatenated token meanings of the printed items, with the attached
+   comment; the comment entries are the standalone comment blocks; there is NO junk:
+     pviews s es bs :=
+       map (fun e => (po_value_at s (fst (e_span e)), option_map (span_text' s) (e_pre e)))
+           (filter (is_kind KEntity) es) = map (fun r => (Ok (fst r), snd r)) (precords_of bs) /\
+       map (fun e => span_text' s (e_span e)) (filter (is_kind KComment) es) = pcomments_of bs /\
+       filter (is_kind KJunk) es = []                                                        *)
+Theorem C02_roundtrip_po_multi : forall bs : list C02BlocksPo.pblock,
+  Forall C02BlocksPo.legal_pblock bs -> C02BlocksPo.padjacent_ok bs ->
+  exists es, walk_po (C02BlocksPo.pfile_text bs) = Ok es /\
+             C02BlocksPoVal.pviews (C02BlocksPo.pfile_text bs) es bs.
+Proof. exact C02BlocksPoVal.roundtrip_po_multi. Qed.
+
+(* a file with all block kinds: the premises hold; its messages with their values *)
+Example C02_blocks_po_example :
+  let A := C02BlocksPo.A in
+  let bs := [C02BlocksPo.px_c; C02BlocksPo.px_b2; C02BlocksPo.px_e1; C02BlocksPo.px_b; C02BlocksPo.px_e2; C02BlocksPo.px_b2; C02BlocksPo.px_e3] in
+  Forall C02BlocksPo.legal_pblock bs /\ C02BlocksPo.padjacent_ok bs /\
+  C02BlocksPoVal.precords_of bs =
+    [(mkpov (A [97]) None (A [98; 10; 99]), None);
+     (mkpov (A [97; 34; 98]) (Some (A [120])) [], Some (A [35; 32; 99; 10; 35; 44; 32; 100; 10]));
+     (mkpov (A [97]) None (A [98]), Some (A [35; 32; 99; 10]))].
+Proof. split; [repeat constructor|]. split; [vm_compute; reflexivity|]. reflexivity. Qed.
+
+(* the separation premise is needed (the listed finding): a comment block, ONE blank line and a
+   message do not parse as a standalone comment and a message -- the same text IS the message
+   with its comment attached across the blank line *)
+Example C02_po_one_blank_line :
+  let A := C02BlocksPo.A in
+  let msg := C02BlocksPo.PEntity [] [] None [C02BlocksPo.it [32] [PPlain 97%N]] (A [32])
+                                 [C02BlocksPo.it [32] [PPlain 98%N]] in
+  let bs := [C02BlocksPo.PComment [(35%N, A [32; 99])]; C02BlocksPo.px_b; msg] in
+  Forall C02BlocksPo.legal_pblock bs /\ C02BlocksPo.padjacent_okb bs = false /\
+  walk_po (C02BlocksPo.pfile_text bs) <> Ok (C02BlocksPo.pentries_of bs) /\
+  C02BlocksPo.pfile_text bs = C02BlocksPo.pfile_text [C02BlocksPo.px_e3] /\
+  C02BlocksPo.padjacent_ok [C02BlocksPo.px_e3] /\
+  walk_po (C02BlocksPo.pfile_text [C02BlocksPo.px_e3]) = Ok (C02BlocksPo.pentries_of [C02BlocksPo.px_e3]).
+Proof. exact C02BlocksPo.px_one_blank_line. Qed.
+
 (* ---- stated, NOT PROVED ---------------------------------------------------------------------
-   Still missing: the block theorem for .po (msgctxt / msgid / msgstr string lists with attached
-   comments); junk regions for ini, inc, dtd; in .properties blanks between a value and its
-   newline, indentation between an attached comment and its key, garbage that shares a line
+   Still missing: junk regions for ini, inc, dtd, po; in .properties blanks between a value and
+   its newline, indentation between an attached comment and its key, garbage that shares a line
    with a following comment, garbage without final newline at the end of the file; Fluent and
    Android (library parsers: oracle only).  The executable counterpart of all of it is the
    oracle of harness/props/c02.py for all seven formats. *)
